@@ -62,7 +62,7 @@ fn main() {
     }
     let thorough = args.tier == Tier::Thorough;
     let mut c = Check::new("C11", args.tier, "exploration");
-    c.rule = "capability lists: every sequence up to length 4 (thorough 5) over 11 capability shapes, plus every sequence of length 5 (thorough 6) that contains the three mandatory structures, in 2 placements; lists filling configuration space to its last byte (the first capability of each type ending at offset 0x100, a decoy of the same type later in the list); BAR kinds x offset/length boundary sets with up to two capabilities deviating from the default; notify multipliers; BAR index values; cyclic lists under a read budget; then the full Transport operation script on every accepted layout with every MMIO access classified against the true windows. Oracle: reference parser in 128-bit arithmetic. distinct = distinct outcome classes x parts".into();
+    c.rule = "capability lists: every sequence up to length 4 (thorough 5) over 11 capability shapes, plus every sequence of length 5 (thorough 6) that contains the three mandatory structures, in 2 placements; lists filling configuration space to its last byte (the first capability of each type ending at offset 0x100, a decoy of the same type later in the list); long lists with the device configuration structure as entry 4..35; BAR kinds x offset/length boundary sets with up to two capabilities deviating from the default; notify multipliers; BAR index values; cyclic lists under a read budget; then the full Transport operation script on every accepted layout with every MMIO access classified against the true windows. Oracle: reference parser in 128-bit arithmetic. distinct = distinct outcome classes x parts".into();
     c.assumptions = vec!["8-byte alignment is required of the common configuration window (the driver uses 64-bit accesses)".into(), "which error is returned is not constrained, only error vs success and the selected windows".into()];
     let mut acc = Acc { evals: 0, classes: BTreeMap::new(), viols: vec![] };
     // Part A: list structure.
@@ -146,6 +146,20 @@ fn main() {
             acc.case("lists-to-the-last-byte", &bars, &l, true);
             acc.case("lists-to-the-last-byte", &bars, &l, false);
         }
+    }
+    // Part A'': long lists. The three mandatory structures, then n header-only capabilities of
+    // other kinds, then the device configuration structure as entry n + 4 (n up to the 31 that fit
+    // configuration space): a well-formed list, every entry of which counts.
+    for n in [0usize, 8, 20, 21, 24, 25, 31] {
+        let mut l: Vec<VCap> = vec![c11::good_common(), c11::good_notify(), c11::good_isr()];
+        for i in 0..n {
+            l.push(VCap { cap_id: 0x01 + (i % 8) as u8, cap_len: 4, cfg_type: 0, bar: 0, offset: 0, length: 0, mult: 0, idpad: 0 });
+        }
+        l.push(c11::good_device());
+        let bytes: usize = l.iter().map(|c| (c.spec().body.len() + 2 + 3) & !3).sum();
+        assert!(0x40 + bytes <= 256);
+        acc.case("long-lists", &bars, &l, false);
+        acc.case("long-lists", &bars, &l, true);
     }
     // Part B: BAR kinds and offset/length boundaries, one or two deviating capabilities.
     let bar_opts: Vec<(BarKind, u64)> = vec![
